@@ -636,6 +636,11 @@ type partialCallable struct {
 	args    []jparse.Node
 	env     *environment
 	context reflect.Value
+	// bound holds the values of the arguments that are not
+	// placeholders when they were evaluated at creation (nil
+	// for the partials built by timeCallables, whose arguments
+	// are literals).
+	bound []reflect.Value
 }
 
 func (f *partialCallable) ParamCount() int {
@@ -666,6 +671,10 @@ func (f *partialCallable) Call(argv []reflect.Value) (reflect.Value, error) {
 				argv = argv[1:]
 			}
 		default:
+			if f.bound != nil {
+				v = f.bound[i]
+				break
+			}
 			v, err = eval(arg, f.context, f.env)
 			if err != nil {
 				return undefined, err
